@@ -114,7 +114,7 @@ CHECKS = {
              "and that coincident impulses lose one. Tied to the code by bit-exact comparison of the windows the real stepForward computes, delivery "
              "runs against a real in-memory database (instance ids 0, 1, 2: id 0 is legal), an in-process pipeline of the real query/handleEvent/prune/TwoBody.propagate code, "
              "and impulses driven through a real Scenario (two targets, several impulses in different steps) against Kepler arcs joined by the impulses."
-             " Two manoeuvre events of one target inside one step, an impulse right after an expired finite burn, and an impulse on a target that joins in the same step are run through real scenarios, each against the same scenario without that impulse. The scenario-time/Julian-date conversions used by the windows are translated from /repo on every run and proved equal to the model (RV/Bridge/Time.lean). Agent.prunePropagateEvents is translated from /repo on every run (RV/Generated/Agents.lean) and proved to be the model's repaired prune rule on impulses, with a membership characterisation for events with a duration (RV/Bridge/Agents.lean).",
+             " Two manoeuvre events of one target inside one step, an impulse right after an expired finite burn, and an impulse on a target that joins in the same step are run through real scenarios, each against the same scenario without that impulse. The scenario-time/Julian-date conversions used by the windows are translated from /repo on every run and proved equal to the model (RV/Bridge/Time.lean). Agent.prunePropagateEvents is translated from /repo on every run (RV/Generated/Agents.lean) and proved to be the model's repaired prune rule on impulses, with a membership characterisation for events with a duration (RV/Bridge/Agents.lean). One open known finding (known_findings.json, scenario-impulse:at-stop-late): an impulse exactly at the final instant of the span whose Julian-date round trip lands after it is not applied within the span; the check prints KNOWN-FINDING for exactly that case.",
         note=BASE_TB + "scipy's event location is modelled by its documented rule and exercised on every impulse case; strict monotonicity of "
              "datetimeToJulianDate is a hypothesis here (C05) and checked bit-exactly on every generated window; events at/before the start are outside the property.",
         technique="Lean 4 proof (tiling over a monotone map, induction over steps) + bit-exact window correspondence + differential delivery/impulse pipeline on the real code",
